@@ -86,8 +86,9 @@ class MultiscaleMonitor:
         R, C = dmap.shape
         valid = ((mask & INVALID_BITS) == 0) & np.isfinite(dmap)
         dv = np.where(valid, dmap, np.nan)
-        for r in range(rows):
-            for c in range(cols):
+        for r in range(off, rows - off):
+            for c in range(off, cols - off):
+                # pixels of the finer level nearer to the edge than the matching window are never searched
                 lo, hi = gmin[r, c], gmax[r, c]
                 ok = False
                 for RR in range(max(0, r // sf - 1), min(R - 1, r // sf + 1) + 1):
